@@ -161,6 +161,19 @@ def run(prog: Program, col: Collector, tier: str, refs: Optional[Refs] = None, c
                       "by-product of rank compression) loses the later parts' constants", fc.loc(g_))
     if not done6:
         col.unresolved(f"{fc.fq}::discrete parts", "the block that merges the optional discrete parts was not found", fc.loc())
+    # ---------------------------------------------------------------- R12.7 the concatenated name keeps the leading position
+    col.rule("R12.7", "the mapping handed on as the inputs of a concatenation is never edited by delete-and-reinsert (the new name would move to the end)", floor=1)
+    used_as_inputs = set()
+    for c_ in ast.walk(fc.node):
+        if isinstance(c_, ast.Call) and (refs.resolve(c_.func) or "").rsplit(".", 1)[-1] in ("Gaussian", "Tensor") and len(c_.args) >= 2:
+            for a_ in c_.args[1:3]:
+                if isinstance(a_, ast.Name):
+                    used_as_inputs.add(a_.id)
+    dels = [d for d in ast.walk(fc.node) if isinstance(d, ast.Delete) and any(isinstance(t, ast.Subscript) and isinstance(t.value, ast.Name) and t.value.id in used_as_inputs for t in d.targets)]
+    col.check(not dels, f"{fc.fq}::inputs of the result", "the concatenated name replaces part_name in place (the data are concatenated on that axis)",
+              f"`{norm(dels[0]) if dels else ''}` removes an entry from a mapping that becomes the inputs of the result, and the new name is inserted afterwards - at the END of the ordered "
+              "mapping - while the arrays were concatenated along the axis the removed name had (axis 0): with any other batch input the declared inputs and the layout of the data disagree",
+              fc.loc(dels[0]) if dels else fc.loc())
     # ---------------------------------------------------------------- R12.4
     from . import c19
     col.rule("R12.4", "the inputs of an aligned result are the requested names, then the remaining inputs (shared with C19 R19.2)", floor=3)
